@@ -659,3 +659,7 @@ def run(rep, programs):
     c16.r_best_first(rep, prog)
     from props import c15
     c15.r_reserve_before_lower(rep, prog)    # a targeted request hands its frame to Lower::get and charges that frame's tree
+    # the targeted / searching paths decrement a huge entry and then claim bits: both have to belong to the same huge frame,
+    # or a free block is reported as taken (and another one is lost) outside tree 0
+    from props import c01
+    c01.r_huge_coord(rep, prog)
